@@ -90,8 +90,10 @@ Definition connect_struct_ok (a : connect_args) : bool :=
      | None => true
      end.
 
+(* _pack_remaining_length raises first when the total is above the limit (repair of F-C04a) *)
 Definition encode_connect (v : version) (a : connect_args) : res bytes :=
-  if connect_struct_ok a then Ok (connect_bytes v a) else Raise E_struct.
+  if connect_remlen v a >? rl_max then Raise E_value
+  else if connect_struct_ok a then Ok (connect_bytes v a) else Raise E_struct.
 
 (* ------------------------------------------------------------------ PUBLISH (_send_publish) *)
 Record publish_args := {
@@ -129,6 +131,7 @@ Definition publish_struct_ok (a : publish_args) : bool :=
 
 Definition encode_publish (v : version) (a : publish_args) : res bytes :=
   if negb (byte_ok (publish_command (p_dup a) (p_qos a) (p_retain a))) then Raise E_value
+  else if publish_remlen v a >? rl_max then Raise E_value          (* _pack_remaining_length: 'Packet too large.' *)
   else if publish_struct_ok a then Ok (publish_bytes v a) else Raise E_struct.
 
 (* --------------------------- PUBACK/PUBREC/PUBREL/PUBCOMP (_send_command_with_mid, dup=False) *)
@@ -152,9 +155,18 @@ Definition disconnect_bytes (v : version) (reason : option Z) (props : option by
     end
   else 224 :: rl_encode 0.                      (* reason code and properties are ignored before v5 *)
 
+Definition disconnect_remlen (v : version) (reason : option Z) (props : option bytes) : Z :=
+  if is_v5 v then match reason, props with
+                  | None, None => 0
+                  | Some _, None => 1
+                  | _, Some p => 1 + len p
+                  end
+  else 0.
+
 (* reasoncode.pack() is bytearray([value]) *)
 Definition encode_disconnect (v : version) (reason : option Z) (props : option bytes) : res bytes :=
-  if is_v5 v && match reason with Some rc => negb (byte_ok rc) | None => false end then Raise E_value
+  if disconnect_remlen v reason props >? rl_max then Raise E_value
+  else if is_v5 v && match reason with Some rc => negb (byte_ok rc) | None => false end then Raise E_value
   else Ok (disconnect_bytes v reason props).
 
 (* ------------------------------------------------------------------ SUBSCRIBE (_send_subscribe, dup=False) *)
@@ -183,7 +195,8 @@ Definition subscribe_struct_ok (mid : Z) (topics : list (bytes * Z)) : bool :=
 
 (* packet.append(q) / bytes([...]) need 0..255 *)
 Definition encode_subscribe (v : version) (mid : Z) (topics : list (bytes * Z)) (props : bytes) : res bytes :=
-  if negb (u16_ok mid) then Raise E_struct
+  if subscribe_remlen v topics props >? rl_max then Raise E_value
+  else if negb (u16_ok mid) then Raise E_struct
   else if negb (forallb (fun tq => str16_ok (fst tq)) topics) then Raise E_struct
   else if negb (forallb (fun tq => byte_ok (snd tq)) topics) then Raise E_value
   else Ok (subscribe_bytes v mid topics props).
@@ -201,7 +214,8 @@ Definition unsubscribe_bytes (v : version) (mid : Z) (topics : list bytes) (prop
   unsubscribe_command :: rl_encode (unsubscribe_remlen v topics props) ++ unsubscribe_body v mid topics props.
 
 Definition encode_unsubscribe (v : version) (mid : Z) (topics : list bytes) (props : bytes) : res bytes :=
-  if u16_ok mid && forallb str16_ok topics then Ok (unsubscribe_bytes v mid topics props) else Raise E_struct.
+  if unsubscribe_remlen v topics props >? rl_max then Raise E_value
+  else if u16_ok mid && forallb str16_ok topics then Ok (unsubscribe_bytes v mid topics props) else Raise E_struct.
 
 (* ------------------------------------------------------------------ one type for "a packet the client sends" *)
 Inductive item :=
@@ -243,13 +257,7 @@ Definition remlen (v : version) (it : item) : Z :=
   | IPublish a => publish_remlen v a
   | IAck _ _ => 2
   | IPing _ => 0
-  | IDisconnect r p =>
-      if is_v5 v then match r, p with
-                      | None, None => 0
-                      | Some _, None => 1
-                      | _, Some p => 1 + len p
-                      end
-      else 0
+  | IDisconnect r p => disconnect_remlen v r p
   | ISubscribe _ t p => subscribe_remlen v t p
   | IUnsubscribe _ t p => unsubscribe_remlen v t p
   end.
